@@ -585,7 +585,12 @@ def check_cjac(spec):
     if len(gl) != len(want):
         return bad(f"cjac:length:{iface}", len(gl), len(want))
     for g, i in zip(gl, want):
+        # rows = trainable gate arguments: autograd/torch mark every gate argument that depends on a requires_grad QNode
+        # argument; jax marks those that depend on the arguments being differentiated (tracers)
+        deps = [{0}, {0, 1}, {1}] if name == "two-args" else None
         e = ref(i)
+        if deps is not None and iface == "jax":
+            e = e[[j for j, d in enumerate(deps) if d & set(want)]]
         g = np.asarray(to_np(g), dtype=float)
         if g.shape != e.shape:
             return bad(f"cjac:shape:{iface}", list(g.shape), list(e.shape), pre=name)
